@@ -293,6 +293,31 @@ func childTCP(b run.Batch, r *ev.Result, rng *rand.Rand) {
 	}
 	defer w.finish()
 	drv.SetClock(1000)
+	// a crowd of sync connections that have not sent their request yet (all opened within the server's read
+	// deadline): an authorized device that asks meanwhile gets its data, not the refusal of an unknown id
+	{
+		var crowd []net.Conn
+		for i := 0; i < 150+rng.Intn(100); i++ {
+			c, err := net.DialTimeout("tcp", fmt.Sprintf("127.0.0.1:%d", w.TCP), 2*time.Second)
+			if err != nil {
+				break
+			}
+			if i%4 == 0 {
+				c.Write([]byte{byte(i)}) // a quarter of a request
+			}
+			crowd = append(crowd, c)
+		}
+		run.Op("%d sync connections without a request are pending", len(crowd))
+		r.Count("inputs.tcp", int64(len(crowd)))
+		r.Max("max.pending_sync_connections_during_probe", int64(len(crowd)))
+		ok := w.live(fmt.Sprintf("%d pending sync connections without a request", len(crowd)))
+		for _, c := range crowd {
+			c.Close()
+		}
+		if !ok {
+			return
+		}
+	}
 	for i, c := range tcpCases(&w.keys, w.probes[1].ID, rng, b.N) {
 		if w.failed || r.NumViolations() > 10 {
 			return
